@@ -28,6 +28,8 @@ pub struct Events {
 #[derive(Serialize, Deserialize, Clone, Debug)]
 pub enum EStep {
     Subscribe { cap: u8, via_open: bool },
+    /// register the sender of subscriber i once more (the same channel twice)
+    SubscribeAgain { i: u8, via_open: bool },
     Unsubscribe { i: u8 },
     DropRx { i: u8 },
     Pause { i: u8 },
@@ -92,6 +94,8 @@ struct Sub {
     rx: Option<async_channel::Receiver<Event>>,
     got: Vec<Event>,
     paused: bool,
+    /// how often the same channel was registered again
+    again: u32,
     /// index into `applied` at which this subscriber joined / left
     start: usize,
     end: Option<usize>,
@@ -126,7 +130,7 @@ impl Scenario for Events {
                     subs += 1;
                     EStep::Subscribe { cap: *rng.pick(&[1u8, 1, 2, 4, 32]), via_open: rng.chance(1, 3) }
                 }
-                3 => EStep::Unsubscribe { i },
+                3 => if rng.chance(1, 3) { EStep::SubscribeAgain { i, via_open: rng.chance(1, 3) } } else { EStep::Unsubscribe { i } },
                 4 | 5 => EStep::DropRx { i },
                 6 | 7 => EStep::Pause { i },
                 8 => EStep::Resume { i },
@@ -205,11 +209,33 @@ fn check_sub(i: usize, s: &Sub, applied: &[Applied], ns: iroh_docs::NamespaceId,
     }
     let end = s.end.unwrap_or(applied.len());
     let want = &applied[s.start.min(end)..end];
+    // A channel that was registered more than once: the statement does not say whether it then
+    // counts as one subscriber or as several, so between one and that many consecutive copies
+    // of each event are accepted (an applied entry is never applied twice, so copies are
+    // adjacent and unambiguous). Everything else - order, payload, nothing for entries that were
+    // not applied, nothing after an acknowledged unsubscribe - is judged as usual.
+    let deduped: Vec<Event>;
+    let got: &Vec<Event> = if s.again > 0 {
+        let mut v: Vec<Event> = Vec::new();
+        let mut run = 0u32;
+        for ev in &s.got {
+            if v.last().map(|l| ev_entry(l) == ev_entry(ev)).unwrap_or(false) && run <= s.again {
+                run += 1;
+                continue;
+            }
+            run = 1;
+            v.push(ev.clone());
+        }
+        deduped = v;
+        &deduped
+    } else {
+        &s.got
+    };
     // what was received must be a prefix of the expected sequence; at the final check of a live
     // subscriber it must be all of it
-    for (j, ev) in s.got.iter().enumerate() {
+    for (j, ev) in got.iter().enumerate() {
         let Some(w) = want.get(j) else {
-            return Err(Violation::new("spurious/extra", format!("subscriber {i} received {} events but only {} entries were applied while it was subscribed; extra: {:?}", s.got.len(), want.len(), short_ev(ev))));
+            return Err(Violation::new("spurious/extra", format!("subscriber {i} received {} events but only {} entries were applied while it was subscribed; extra: {:?}", got.len(), want.len(), short_ev(ev))));
         };
         let (entry, local, from, status, download, evns) = match ev {
             Event::LocalInsert { namespace, entry } => (entry, true, [0u8; 32], 0u8, true, *namespace),
@@ -217,7 +243,7 @@ fn check_sub(i: usize, s: &Sub, applied: &[Applied], ns: iroh_docs::NamespaceId,
         };
         if entry != &w.entry {
             // classify: duplicate of an earlier one, or one that was never applied, or reordered
-            let class = if j > 0 && s.got[..j].iter().any(|e| ev_entry(e) == entry) { "duplicate/event" } else if !want.iter().any(|a| &a.entry == entry) { "spurious/not-applied" } else { "order/mismatch" };
+            let class = if j > 0 && got[..j].iter().any(|e| ev_entry(e) == entry) { "duplicate/event" } else if !want.iter().any(|a| &a.entry == entry) { "spurious/not-applied" } else { "order/mismatch" };
             return Err(Violation::new(class, format!("subscriber {i}: event {j} is for {:?}, the {j}-th applied entry is {:?}", entry.entry().id(), w.entry.entry().id())));
         }
         if evns != ns {
@@ -238,12 +264,12 @@ fn check_sub(i: usize, s: &Sub, applied: &[Applied], ns: iroh_docs::NamespaceId,
             }
         }
     }
-    if final_check && !s.dropped && s.end.is_none() && s.got.len() < want.len() {
-        return Err(Violation::new("missing/event", format!("subscriber {i} received {} events, {} entries were applied while it was subscribed; first missing: {:?}", s.got.len(), want.len(), want[s.got.len()].entry.entry().id())));
+    if final_check && !s.dropped && s.end.is_none() && got.len() < want.len() {
+        return Err(Violation::new("missing/event", format!("subscriber {i} received {} events, {} entries were applied while it was subscribed; first missing: {:?}", got.len(), want.len(), want[got.len()].entry.entry().id())));
     }
-    if final_check && s.end.is_some() && !s.dropped && s.got.len() < want.len() {
+    if final_check && s.end.is_some() && !s.dropped && got.len() < want.len() {
         // unsubscribed: everything applied before the unsubscribe request must have arrived
-        return Err(Violation::new("missing/event", format!("subscriber {i} (unsubscribed) received {} of {} events", s.got.len(), want.len())));
+        return Err(Violation::new("missing/event", format!("subscriber {i} (unsubscribed) received {} of {} events", got.len(), want.len())));
     }
     Ok(())
 }
@@ -384,8 +410,29 @@ async fn run(plan: &EventsPlan, cx: &mut Cx, only_download: bool) -> Res {
                 let mut fut = fut;
                 let _ = poll_once(&mut fut);
                 pending.push(("subscribe".into(), fut, Some(true)));
-                subs.push(Sub { tx, rx: Some(rx), got: vec![], paused: false, start: applied.len(), end: None, dropped: false });
+                subs.push(Sub { tx, rx: Some(rx), got: vec![], paused: false, again: 0, start: applied.len(), end: None, dropped: false });
                 cx.ev("subscribe", format!("cap={cap} via_open={via_open}"));
+            }
+            EStep::SubscribeAgain { i, via_open } => {
+                let Some(s) = subs.get_mut(*i as usize) else { continue };
+                if s.end.is_some() || s.dropped {
+                    continue;
+                }
+                let h2 = h.clone();
+                let tx2 = s.tx.clone();
+                let via = *via_open;
+                let mut fut: PendFut = Box::pin(async move {
+                    if via {
+                        h2.open(ns, OpenOpts::default().subscribe(tx2)).await.map_err(|e| format!("{e:#}"))
+                    } else {
+                        h2.subscribe(ns, tx2).await.map_err(|e| format!("{e:#}"))
+                    }
+                });
+                let _ = poll_once(&mut fut);
+                pending.push(("subscribe-again".into(), fut, Some(true)));
+                s.again += 1;
+                cx.probe("same_channel_registered_twice");
+                cx.ev("subscribe-again", format!("{i} via_open={via_open}"));
             }
             EStep::Unsubscribe { i } => {
                 let Some(s) = subs.get_mut(*i as usize) else { continue };
@@ -580,7 +627,7 @@ async fn run(plan: &EventsPlan, cx: &mut Cx, only_download: bool) -> Res {
                     let mut fut: PendFut = Box::pin(async move { h3.open(ns1, OpenOpts::default().sync().subscribe(tx3)).await.map_err(|e| format!("{e:#}")) });
                     let _ = poll_once(&mut fut);
                     pending.push(("open-neighbour".into(), fut, Some(true)));
-                    other_sub = Some(Sub { tx, rx: Some(rx), got: vec![], paused: false, start: 0, end: None, dropped: false });
+                    other_sub = Some(Sub { tx, rx: Some(rx), got: vec![], paused: false, again: 0, start: 0, end: None, dropped: false });
                     cx.probe("neighbour_document_in_use");
                 }
                 let h2 = h.clone();
